@@ -1,3 +1,147 @@
 import B6.Driver.Common
-/-! Driver for C27 — stub (the check for this property is not built yet). -/
-def main : IO Unit := B6.Driver.run { σ := Unit, init := (), step := fun s _ _ => (s, .bad) }
+import B6.Model.Pbf
+import B6.Driver.PbfTokens
+/-!
+Driver for C27 (token formats: see `harness/cmd/c27/main.go`, parsers in `B6/Driver/PbfTokens.lean`).
+
+ops
+  `write n element*`            answer `nb block*` | `err…` | `panic`     model: `writeAll`
+  `read g`                      answer `ok|err g (n element*)*g [fl=0|1]`  stream per goroutine
+  `rawread ABCD block`          answer `ok|err|panic n element*`            model: `readBlock` with options
+  `enc nano off gran`           answer int | `panic`
+  `dec angle off gran`          answer int
+
+State: the elements of the last `write` and the blocks the implementation wrote (re-synchronised from
+its answer), so the reader model runs on the blocks that are really in the file.
+
+Property predicate (`read`): there is an assignment of the file's blocks (block sizes = those of the
+model writer, a function of the input: maximal runs of one element type cut at 8000) to goroutines such
+that every goroutine's stream is the concatenation of its blocks in file order, every element equal to
+the written one except that node coordinates may differ by less than one granularity step (100
+nano-degrees); for one goroutine this is: the same elements in the same order.
+-/
+open B6.Driver B6.Model.Pbf B6.Driver.PbfTokens
+namespace B6.Driver.C27
+
+/-! the property predicate -/
+
+def natAbsDiff (a b : Int64) : Nat := (a.toInt - b.toInt).natAbs
+
+/-- same element, node coordinates less than one granularity step (100 nano-degrees) apart -/
+def eqTol : Element → Element → Bool
+  | .node i la lo ts, .node i' la' lo' ts' => i == i' && ts == ts' && natAbsDiff la la' < 100 && natAbsDiff lo lo' < 100
+  | a, b => a == b
+
+def isPrefixBy {α : Type} (eq : α → α → Bool) : List α → List α → Bool
+  | [], _ => true
+  | _ :: _, [] => false
+  | a :: as, b :: bs => eq a b && isPrefixBy eq as bs
+
+def setAt {α : Type} : List α → Nat → α → List α
+  | [], _, _ => []
+  | _ :: xs, 0, y => y :: xs
+  | x :: xs, n + 1, y => x :: setAt xs n y
+
+/-- is there an assignment of the chunks (in order) to the streams such that each stream is the
+concatenation of its chunks? (depth-first; a chunk almost always fits one stream only) -/
+def assignable {α : Type} (eq : α → α → Bool) : List (List α) → List (List α) → Bool
+  | [], streams => streams.all List.isEmpty
+  | c :: cs, streams =>
+    (List.range streams.length).any fun k =>
+      match streams[k]? with
+      | none => false
+      | some s => isPrefixBy eq c s && assignable eq cs (setAt streams k (s.drop c.length))
+
+def splitBy {α : Type} : List Nat → List α → List (List α)
+  | [], _ => []
+  | n :: ns, xs => xs.take n :: splitBy ns (xs.drop n)
+
+structure St where
+  elems : List Element := []
+  blocks : List Block := []
+  /-- the input cut at the block boundaries of the model writer; `none` = the cut does not cover the input -/
+  specChunks : Option (List (List Element)) := none
+  /-- the reader model on each block that is in the file; `none` = some block fails -/
+  modelChunks : Option (List (List Element)) := none
+
+def mkSt (es : List Element) (model impl : List Block) : St :=
+  let lens := model.map fun b => (readBlock {} b).out.length
+  let rs := impl.map (readBlock {})
+  { elems := es, blocks := impl,
+    specChunks := if lens.sum == es.length then some (splitBy lens es) else none,
+    modelChunks := if rs.all (fun r => r.fail.isNone) then some (rs.map (·.out)) else none }
+
+def optsOf (s : String) : Option Opts :=
+  match s.toList with
+  | [a, b, c, d] =>
+    if [a, b, c, d].all (fun x => x == '0' || x == '1') then
+      some { skipTags := a == '1', skipNodes := b == '1', skipWays := c == '1', skipRels := d == '1' }
+    else none
+  | _ => none
+
+def pStreams : P (List (List Element)) := do
+  let g ← pNat
+  many g (counted pElement)
+
+def step (st : St) (op impl : String) : St × Verdict :=
+  match words op with
+  | "write" :: rest =>
+    match parseAll (counted pElement) rest with
+    | none => (st, .bad)
+    | some es =>
+      let model := writeAll es
+      let m := rBlocks model
+      match parseAll (counted pBlock) (words impl) with
+      | some bs => (mkSt es model bs, if impl == m then .ok else .diff m)
+      | none => (mkSt es model model, .diff m)
+  | ["read", gs] =>
+    match gs.toNat? with
+    | none => (st, .bad)
+    | some g =>
+      let (ws, fl) := match (words impl).reverse with
+        | "fl=1" :: r => (r.reverse, true)
+        | "fl=0" :: r => (r.reverse, false)
+        | _ => (words impl, true)
+      match ws with
+      | status :: rest =>
+        match parseAll pStreams rest with
+        | none => (st, .bad)
+        | some streams =>
+          if status != "ok" && status != "err" then (st, .bad) else
+          -- the blocks the model writer makes for this input decide the chunk sizes
+          let pred := status == "ok" && streams.length == g &&
+            (match st.specChunks with | some cs => assignable eqTol cs streams | none => false)
+          if !pred then (st, .propfail "roundtrip")
+          else if !fl then (st, .propfail "coordinate-float")
+          else
+            -- the reader model on the blocks that are in the file
+            let modelOK := match st.modelChunks with
+              | some cs => assignable (fun (a b : Element) => a == b) cs streams
+              | none => false
+            (st, if modelOK then .ok else .diff ("reader-model: " ++ rRes (readAll {} st.blocks)))
+      | [] => (st, .bad)
+  | "rawread" :: o :: rest =>
+    match optsOf o, parseAll pBlock rest with
+    | some opts, some b =>
+      let m := rRes (readBlock opts b)
+      (st, if impl == m then .ok else .diff m)
+    | _, _ => (st, .bad)
+  | ["enc", a, b, c] =>
+    match parseAll pInt64 [a], parseAll pInt64 [b], parseAll pInt64 [c] with
+    | some n, some off, some g =>
+      let m := match encodeAngle? n off g with | some v => rI v | none => "panic"
+      (st, if impl == m then .ok else .diff m)
+    | _, _, _ => (st, .bad)
+  | ["dec", a, b, c] =>
+    match parseAll pInt64 [a], parseAll pInt64 [b], parseAll pInt64 [c] with
+    | some q, some off, some g =>
+      let m := rI (decodeAngle q off g)
+      (st, if impl == m then .ok else .diff m)
+    | _, _, _ => (st, .bad)
+  | _ => (st, .bad)
+
+def family : Family := { σ := St, init := {}, step := step }
+
+end B6.Driver.C27
+
+def main : IO Unit := B6.Driver.run B6.Driver.C27.family
